@@ -1,5 +1,6 @@
 import XrsVerif.Proofs.KSimp
 import XrsVerif.Model.Index
+import XrsVerif.Gen.GraphKeys
 import Mathlib.Tactic.Positivity
 /-
   C13 -- Spectral indices equal their band formulas, NaN where undefined.
@@ -210,6 +211,20 @@ theorem bands_cast_f4 : allIndexWirings.all (fun w => w.casts.all (· == "f4") &
 
 /-! ### the dask wrappers map the *same* kernel with the same argument order (used by C01) -/
 theorem dask_same_kernel : allIndexWirings.all (·.daskSameKernel) = true := by decide
+
+/-! ### ... and leave the graph key of the mapped layer to dask
+
+  On Dask-backed bands an index has a value only once its graph is evaluated, and the indices of a scene are evaluated
+  together (one `dask.compute`, one Dataset, `ndvi - ndmi`): in ONE dictionary of tasks, where equal keys mean the same
+  task.  NDVI / NDMI / NBR / NBR2 share one Dask function; what keeps their results apart is that the key of the
+  mapped layer is dask's token of the kernel and of *both* bands.  No `map_blocks` of multispectral.py passes `name=`
+  (the complete key) or forwards `**kwargs` -- decided on the generated sweep `Gen.allGraphKeyFacts`, which does see
+  the shared backend.  (Model, theorem "together = alone" and the counter-example: Proofs/GraphKeys.lean, Props/C01
+  section 6b `no_call_site_names_its_graph_key`, `joint_results_are_the_single_results`.) -/
+theorem index_sites_leave_keys_to_dask :
+    (((allGraphKeyFacts.filter fun s => s.module == "multispectral").all GraphKeyFact.keyFree) &&
+      (allGraphKeyFacts.any fun s => s.site == "multispectral._run_normalized_ratio_dask" && s.kind == "map_blocks")) = true := by
+  decide +kernel
 
 /-! ### non-vacuity: concrete evaluations over ℚ -/
 instance : Trig ℚ := ⟨id, id, fun a _ => a, id, id, id, id⟩
